@@ -149,6 +149,28 @@ ROUTE = {
              "pub fn rt_stub_s2(x: u128) -> u128 { rt_s2::call(x) }\n"
              "pub fn rt_stub_a(x: u128) -> u128 { rt_a::call(x) }\n",
              "(crate::utils::fo, rt_stub_fo), (crate::utils::fe, rt_stub_fe), (crate::utils::sl2, rt_stub_s2), (crate::utils::a, rt_stub_a)"),
+    # CAST-128 / CAST-256: the round functions are macros; the shadow variants give them a function boundary (vf1..vf3, bodies =
+    # the real macros, lib/bcv/plans/cast5_route.py)
+    "cast5": ("fn rt_conc_f1(d: u32, mr: u64) -> u32 { refmodels::cast5::f(1, d, (mr >> 8) as u32, mr as u8) }\n"
+              "fn rt_conc_f2(d: u32, mr: u64) -> u32 { refmodels::cast5::f(2, d, (mr >> 8) as u32, mr as u8) }\n"
+              "fn rt_conc_f3(d: u32, mr: u64) -> u32 { refmodels::cast5::f(3, d, (mr >> 8) as u32, mr as u8) }\n"
+              "cuf2!(rt_f1, vuf_xcut_rt_f1, u32, u64, u32, rt_conc_f1);\n"
+              "cuf2!(rt_f2, vuf_xcut_rt_f2, u32, u64, u32, rt_conc_f2);\n"
+              "cuf2!(rt_f3, vuf_xcut_rt_f3, u32, u64, u32, rt_conc_f3);\n"
+              "pub fn rt_stub_f1(d: u32, m: u32, r: u8) -> u32 { rt_f1::call(d, ((m as u64) << 8) | r as u64) }\n"
+              "pub fn rt_stub_f2(d: u32, m: u32, r: u8) -> u32 { rt_f2::call(d, ((m as u64) << 8) | r as u64) }\n"
+              "pub fn rt_stub_f3(d: u32, m: u32, r: u8) -> u32 { rt_f3::call(d, ((m as u64) << 8) | r as u64) }\n",
+              "(crate::vf1, rt_stub_f1), (crate::vf2, rt_stub_f2), (crate::vf3, rt_stub_f3)"),
+    "cast6": ("fn rt_conc_f1(d: u32, mr: u64) -> u32 { refmodels::cast6::f1(d, (mr >> 8) as u32, mr as u8) }\n"
+              "fn rt_conc_f2(d: u32, mr: u64) -> u32 { refmodels::cast6::f2(d, (mr >> 8) as u32, mr as u8) }\n"
+              "fn rt_conc_f3(d: u32, mr: u64) -> u32 { refmodels::cast6::f3(d, (mr >> 8) as u32, mr as u8) }\n"
+              "cuf2!(rt_f1, vuf_xcut_rt_f1, u32, u64, u32, rt_conc_f1);\n"
+              "cuf2!(rt_f2, vuf_xcut_rt_f2, u32, u64, u32, rt_conc_f2);\n"
+              "cuf2!(rt_f3, vuf_xcut_rt_f3, u32, u64, u32, rt_conc_f3);\n"
+              "pub fn rt_stub_f1(d: u32, m: u32, r: u8) -> u32 { rt_f1::call(d, ((m as u64) << 8) | r as u64) }\n"
+              "pub fn rt_stub_f2(d: u32, m: u32, r: u8) -> u32 { rt_f2::call(d, ((m as u64) << 8) | r as u64) }\n"
+              "pub fn rt_stub_f3(d: u32, m: u32, r: u8) -> u32 { rt_f3::call(d, ((m as u64) << 8) | r as u64) }\n",
+              "(crate::vf1, rt_stub_f1), (crate::vf2, rt_stub_f2), (crate::vf3, rt_stub_f3)"),
     # state-dependent leaves (Blowfish F over the instance's S-boxes, Twofish g over its key-dependent S-boxes): every harness
     # that uses these stubs works on ONE state (all its instances are built from the same bytes), so the leaf is one fixed
     # function of its data argument; the native replay runs the real function (kani::stub does not apply natively)
